@@ -42,6 +42,7 @@ class FnResult:
         self.time_s = 0.0
         self.contracts_used = set()
         self.outcomes = {}
+        self.infeasible = 0
         self.notes = []
         self.error = None
 
@@ -310,7 +311,7 @@ class IncSolver:
             self.s.add(c)
         self.n = max(self.n, len(ob.pc))
         g = ob.goal
-        if z3.is_true(z3.simplify(g)):
+        if (ob.info or {}).get('trivial') == 'assumed' or z3.is_true(z3.simplify(g)):
             return {'status': 'discharged', 'backend': 'trivial', 'time_s': 0.0}
         self.s.push()
         self.s.add(z3.Not(g))
@@ -368,7 +369,14 @@ def verify_function(src, reg, key, opts=None):
                 ctx, status = run_path(src, reg, contract, fnode, fglobs, builder, prefix, opts)
                 if status == 'vacuous':
                     continue
+                # alternatives of every decision this run took beyond its prefix -- also when the run
+                # was aborted later (an infeasible tail says nothing about earlier alternatives)
+                for i in range(len(prefix), len(ctx.taken)):
+                    kk, n, lab = ctx.taken[i]
+                    for alt in range(kk + 1, n):
+                        todo.append([(t[0], t[2], t[1]) for t in ctx.taken[:i]] + [(alt, lab, n)])
                 if status == 'infeasible':
+                    res.infeasible += 1
                     continue
                 any_feasible = True
                 res.paths += 1
@@ -376,10 +384,6 @@ def verify_function(src, reg, key, opts=None):
                     res.cut_paths += 1
                 if res.paths > max_paths:
                     raise Unsupported('path explosion')
-                for i in range(len(prefix), len(ctx.taken)):
-                    kk, n, lab = ctx.taken[i]
-                    for alt in range(kk + 1, n):
-                        todo.append([(t[0], t[2], t[1]) for t in ctx.taken[:i]] + [(alt, lab, n)])
                 res.contracts_used |= ctx.ghost.get('contracts_used', set())
                 res.notes.extend(ctx.notes)
                 pstr = ''.join(str(t[0]) for t in ctx.taken)
